@@ -1,4 +1,141 @@
 import Jose.Jwe
+import Jose.Lemmas.B64
+import Jose.Lemmas.Json
+import Jose.Props.C02
+/-
+  C04 — JWE encrypt/decrypt round trip; what is produced, bit for bit.
+  Statements about `Jwe.encCek`, `Jwe.sealWith` / `Jwe.openWith`, `Jwe.wrp` / `Jwe.unw`.
+-/
+set_option linter.unusedSimpArgs false
+set_option linter.unusedVariables false
+
 namespace Jose.Props.C04
-theorem placeholder : (1 : Nat) = 1 := rfl
+open Jose Jose.Jwe Jose.Jws Jose.Json Jose.Entity Jose.B64 Tables
+
+/-! ### hypotheses on the primitives (laws, never axioms) -/
+
+/-- AES-GCM: what is sealed opens, and the tag has 16 bytes -/
+def GcmLaw (P : Prims) : Prop :=
+  ∀ key iv aad pt, (P.gcmEnc key iv aad pt).2.length = 16 ∧
+    P.gcmDec key iv aad (P.gcmEnc key iv aad pt).1 (P.gcmEnc key iv aad pt).2 = some pt
+
+/-- AES-CBC with padding round-trips; HMAC output is at least `k` bytes for the pairings used -/
+def CbcLaw (P : Prims) : Prop :=
+  (∀ key iv pt, P.cbcDec key iv (P.cbcEnc key iv pt) = some pt) ∧
+  (∀ k hs key msg, (k, hs) ∈ [(16, "S256"), (24, "S384"), (32, "S512")] → k ≤ (P.hmac hs key msg).length)
+
+def ZipLaw (P : Prims) : Prop := ∀ x, P.inflate (P.deflate x) = some x
+
+/-- **C04 (cryptographic core of the round trip).**  For every content-encryption family,
+    key, IV, associated data and body: what `sealWith` produces is accepted by `openWith`
+    with the same inputs and gives the body back. -/
+theorem seal_open (P : Prims) (hg : GcmLaw P) (hc : CbcLaw P) (name : String) (fam : EncFam)
+    (hf : encFamily name = some fam) (key iv aad body : Bs) :
+    openWith P fam key iv aad (sealWith P fam key iv aad body).1 (sealWith P fam key iv aad body).2 = some body := by
+  cases fam with
+  | gcm k =>
+    obtain ⟨h1, h2⟩ := hg key iv aad body
+    simp [openWith, sealWith, h1, h2]
+  | cbc k hs =>
+    have hpair : (k, hs) ∈ [(16, "S256"), (24, "S384"), (32, "S512")] := by
+      simp only [encFamily] at hf
+      split at hf <;> simp_all
+    have hlen := hc.2 k hs (key.take k) (aad ++ iv ++ P.cbcEnc (key.drop k) iv body ++ be 8 (aad.length * 8)) hpair
+    simp only [openWith, sealWith, List.length_take, hc.1]
+    simp only [List.append_assoc] at hlen ⊢
+    simp [Nat.min_eq_left hlen]
+
+/-- **C04 (bit-identical).**  Given the content key, the IV and the (compressed) body,
+    ciphertext and tag are exactly the primitive's output on the RFC 7518 inputs: for
+    GCM the sealed (key, iv, aad, body); for CBC-HMAC the CBC ciphertext under the second
+    half of the key and the first half of HMAC over aad ‖ iv ‖ ciphertext ‖ AL under the
+    first half -/
+theorem seal_layout (P : Prims) (k : Nat) (hs : String) (key iv aad body : Bs) :
+    sealWith P (.gcm k) key iv aad body = P.gcmEnc key iv aad body ∧
+    (sealWith P (.cbc k hs) key iv aad body).1 = P.cbcEnc (key.drop k) iv body ∧
+    (sealWith P (.cbc k hs) key iv aad body).2 =
+      (P.hmac hs (key.take k) (aad ++ iv ++ P.cbcEnc (key.drop k) iv body ++ be 8 (aad.length * 8))).take k := by
+  simp [sealWith]
+
+/-- the 64-bit big-endian length field -/
+example : be 8 (51 * 8) = [0, 0, 0, 0, 0, 0, 1, 152] := by decide
+
+/-- what `jose_jwe_enc_cek` writes: iv, tag and ciphertext are the base64url of the IV drawn
+    and of `sealWith` on (CEK, iv, aad-in-full of the *resulting* object, body) where the body
+    is the plaintext, deflated as one stream iff `zip` is in the protected header -/
+theorem encCek_spec (P : Prims) (jwe cek : Json) (pt rnd : Bs) (jwe' : Json) (h : encCek P jwe cek pt rnd = some jwe') :
+    ∃ a kvs fam aad key zip,
+      encCekSetup jwe cek = some (a, .obj kvs) ∧ encFamily a.name = some fam ∧
+      aadOf (.obj kvs) = some aad ∧ exactKey cek "k" (cekLen fam) = some key ∧ zipOf (.obj kvs) = some zip ∧
+      let iv := rnd.take (ivLen fam)
+      let body := if zip then P.deflate pt else pt
+      jwe' = .obj (setKV "ciphertext" (B64.enc (sealWith P fam key iv aad body).1)
+                    (setKV "tag" (B64.enc (sealWith P fam key iv aad body).2) (setKV "iv" (B64.enc iv) kvs))) := by
+  simp only [encCek, Option.bind_eq_some_iff] at h
+  obtain ⟨⟨a, j⟩, hs, fam, hf, aad, haad, key, hk, zip, hz, hfin⟩ := h
+  cases j with
+  | obj kvs =>
+    simp only [Option.some.injEq] at hfin
+    exact ⟨a, kvs, fam, aad, key, zip, hs, hf, haad, hk, hz, hfin.symm⟩
+  | _ => simp at hfin
+
+/-- members written by the encryptor do not disturb the associated data -/
+theorem aadOf_after_enc (kvs : List (String × Json)) (c t i : Json) :
+    aadOf (.obj (setKV "ciphertext" c (setKV "tag" t (setKV "iv" i kvs)))) = aadOf (.obj kvs) := by
+  simp only [aadOf, optStr]
+  rw [lookup_setKV_other "ciphertext" "protected" _ _ (by decide), lookup_setKV_other "tag" "protected" _ _ (by decide),
+    lookup_setKV_other "iv" "protected" _ _ (by decide), lookup_setKV_other "ciphertext" "aad" _ _ (by decide),
+    lookup_setKV_other "tag" "aad" _ _ (by decide), lookup_setKV_other "iv" "aad" _ _ (by decide)]
+
+/-- decoding a member that was just written with `jose_b64_enc` -/
+theorem exactKey_enc (kvs : List (String × Json)) (m : String) (b : Bs) (hb : Bytes b) :
+    exactKey (.obj (setKV m (B64.enc b) kvs)) m b.length = some b := by
+  simp only [exactKey, get?, lookup_setKV_same, bytesOfJson]
+  have := dec_enc_json b hb
+  simp only [B64.enc] at this ⊢
+  simp [this]
+
+/-- **C04 (round trip of the content encryption, object level).**  Given the laws above and
+    that everything involved is a byte string, the members `iv`, `tag`, `ciphertext` written
+    by `jose_jwe_enc_cek` are read back by the decryptor as exactly what was written, the
+    associated data is the same, and `openWith` followed by the inflate stage returns the
+    plaintext. -/
+theorem enc_then_open (P : Prims) (hg : GcmLaw P) (hc : CbcLaw P) (hz : ZipLaw P)
+    (jwe cek : Json) (pt rnd : Bs) (jwe' : Json) (h : encCek P jwe cek pt rnd = some jwe')
+    (hbytes : ∀ fam key iv aad body, Bytes (sealWith P fam key iv aad body).1 ∧ Bytes (sealWith P fam key iv aad body).2)
+    (hrnd : Bytes rnd) :
+    ∃ a kvs fam aad key zip iv ct tag,
+      encCekSetup jwe cek = some (a, .obj kvs) ∧ encFamily a.name = some fam ∧ zipOf (.obj kvs) = some zip ∧
+      aadOf jwe' = some aad ∧
+      exactKey jwe' "iv" iv.length = some iv ∧ iv = rnd.take (ivLen fam) ∧
+      bytesOfJson (jwe'.get? "tag") = some tag ∧
+      bytesOfJson (jwe'.get? "ciphertext") = some ct ∧
+      (openWith P fam key iv aad ct tag).bind (fun body => if zip then P.inflate body else some body) = some pt := by
+  obtain ⟨a, kvs, fam, aad, key, zip, h1, h2, h3, h4, h5, h6⟩ := encCek_spec P jwe cek pt rnd jwe' h
+  simp only at h6
+  subst h6
+  have hivb : Bytes (rnd.take (ivLen fam)) := fun x hx => hrnd x (List.mem_of_mem_take hx)
+  obtain ⟨hb1, hb2⟩ := hbytes fam key (rnd.take (ivLen fam)) aad (if zip then P.deflate pt else pt)
+  refine ⟨a, kvs, fam, aad, key, zip, rnd.take (ivLen fam),
+    (sealWith P fam key (rnd.take (ivLen fam)) aad (if zip then P.deflate pt else pt)).1,
+    (sealWith P fam key (rnd.take (ivLen fam)) aad (if zip then P.deflate pt else pt)).2,
+    h1, h2, h5, ?_, ?_, rfl, ?_, ?_, ?_⟩
+  · rw [aadOf_after_enc]; exact h3
+  · -- iv read back
+    have := exactKey_enc kvs "iv" (rnd.take (ivLen fam)) hivb
+    simp only [exactKey, get?] at this ⊢
+    rw [lookup_setKV_other "ciphertext" "iv" _ _ (by decide), lookup_setKV_other "tag" "iv" _ _ (by decide)]
+    exact this
+  · have := dec_enc_json _ hb2
+    simp only [get?, bytesOfJson]
+    rw [lookup_setKV_other "ciphertext" "tag" _ _ (by decide), lookup_setKV_same]
+    simp only [B64.enc] at this ⊢
+    exact this
+  · have := dec_enc_json _ hb1
+    simp only [get?, bytesOfJson, lookup_setKV_same]
+    simp only [B64.enc] at this ⊢
+    exact this
+  · rw [seal_open P hg hc a.name fam h2]
+    cases zip <;> simp [hz _]
+
 end Jose.Props.C04
